@@ -128,6 +128,11 @@ class DynamicEndmarkerField(Field):
             decode_state.cursor_byte_position = tmp_cursor
 
             result.append(self.structure.decode_from_pdu(decode_state))
+            if decode_state.cursor_byte_position <= tmp_cursor:
+                # an item which does not consume any data would be
+                # repeated forever
+                raise DecodeError(f"An item of dynamic endmarker field {self.short_name} "
+                                  f"does not consume any data")
 
         decode_state.origin_byte_position = orig_origin
 
